@@ -288,6 +288,8 @@ func (s *Stream) Close() error {
 	}
 	if atomic.LoadUint32(&s.callbackInProcess) == 1 {
 		atomic.CompareAndSwapUint32(&s.state, uint32(streamOpened), uint32(streamLocalHalfClosed))
+		// the callback may be blocked in a read waiting for more data: wake it up, or the deferred close never happens
+		s.safeCloseNotify()
 		return nil
 	}
 
